@@ -27,25 +27,40 @@ def alignment_guarded(fn, node):
         if anc.get("k") == "if":
             c = X.strip(anc["cond"])
             neg = False
-            while c.get("k") == "un" and c.get("op") == "!":
-                c = X.strip(c["ch"][0])
-                neg = not neg
             eq0 = None
-            if c.get("k") == "bin" and c.get("op") in ("==", "!=") and X.const_val(c["ch"][1]) == 0:
-                eq0 = c["op"] == "=="
-                c = X.strip(c["ch"][0])
-            if c.get("k") == "ref" and c.get("rk") == "local":
-                # the test hoisted into a local that is set once (misalignment = key & 3;  if (misalignment == 0) ..)
-                defs = []
-                for y in walk(fn.body):
-                    if y.get("k") == "assign" and X.strip(y["ch"][0]).get("d") == c["d"]:
-                        defs.append(y["ch"][1] if y.get("op") == "=" else None)
-                    elif y.get("k") == "decl":
-                        defs += [d_["init"] for d_ in y.get("decls", ()) if d_["d"] == c["d"] and d_.get("init") is not None]
-                    elif y.get("k") == "un" and y.get("op") in ("++", "--") and X.strip(y["ch"][0]).get("d") == c["d"]:
-                        defs.append(None)
-                if len(defs) == 1 and defs[0] is not None:
-                    c = X.strip(defs[0])
+            for _ in range(6):
+                # peel negations, comparisons with 0 and locals that hold the test (aligned = !(key & 3); if (aligned) ..)
+                if c.get("k") == "un" and c.get("op") == "!":
+                    c = X.strip(c["ch"][0])
+                    neg = not neg
+                    continue
+                if c.get("k") == "bin" and c.get("op") in ("==", "!=") and X.const_val(c["ch"][1]) == 0:
+                    if c["op"] == "==":
+                        neg = not neg
+                    c = X.strip(c["ch"][0])
+                    continue
+                if c.get("k") == "cond" and X.const_val(c["ch"][1]) is not None and X.const_val(c["ch"][2]) is not None:
+                    tv, fv = bool(X.const_val(c["ch"][1])), bool(X.const_val(c["ch"][2]))
+                    if tv != fv:
+                        if fv:
+                            neg = not neg
+                        c = X.strip(c["ch"][0])
+                        continue
+                if c.get("k") == "ref" and c.get("rk") == "local":
+                    defs = []
+                    for y in walk(fn.body):
+                        if y.get("k") == "assign" and X.strip(y["ch"][0]).get("d") == c["d"]:
+                            defs.append(y["ch"][1] if y.get("op") == "=" else None)
+                        elif y.get("k") == "decl":
+                            defs += [d_["init"] for d_ in y.get("decls", ()) if d_["d"] == c["d"] and d_.get("init") is not None]
+                        elif y.get("k") == "un" and y.get("op") in ("++", "--") and X.strip(y["ch"][0]).get("d") == c["d"]:
+                            defs.append(None)
+                    if len(defs) == 1 and defs[0] is not None:
+                        c = X.strip(defs[0])
+                        continue
+                break
+            eq0 = True if neg else None
+            neg = False
             if c.get("k") == "bin" and c.get("op") == "&" and X.const_val(c["ch"][1]) in (3, 7, 15):
                 p = X.strip(c["ch"][0])
                 if p.get("k") == "ref" and p.get("rk") == "param":
@@ -109,10 +124,10 @@ def run(tier="quick"):
                     # a helper of the same file: the normaliser does not inline calls, so this function cannot be decided
                     raise AnalysisBroken("%s calls the helper %s(); HASHNF does not inline helpers, so equality with the published "
                                          "definition can be neither established nor refuted" % (impl, m_.group(1)))
-                chk.ob("H1", impl, site, False, loc=fn.loc(fn.body),
-                       detail="%s uses a construct outside the normaliser's term algebra (%s); equality with the published "
-                              "definition cannot be established" % (impl, e))
-                continue
+                # outside the term algebra: equality with the published definition is neither established nor refuted - the check
+                # cannot decide this function (exit 2), which is not a violation
+                raise AnalysisBroken("%s uses a construct outside the normaliser's term algebra (%s); equality with the published "
+                                     "definition can be neither established nor refuted" % (impl, e))
             nfs[impl] = nf
             d = hashnf.diff(nf, refnf[ref])
             chk.ob("H1", impl, site, d is None, loc=fn.loc(fn.body),
